@@ -106,8 +106,13 @@ def check_date(ck, date, seen):
         if len(ck.samples) < 10:
             ck.samples.append(sample)
         if r2 == "unsat":
-            # discharged within the stated bound (single-person household from root inputs); the guard is
-            # reachable only with parent values that no single person attains -- listed in the evidence
+            # unreachable for a single person: expand the frontier over small multi-person household
+            # templates (ids / pointers / ages concrete, all other inputs symbolic per person)
+            hit = template_cones(ck, dag, date, n, fname, kinds)
+            if hit:
+                continue
+            # discharged within the stated bound (single person + the household templates); the guard is
+            # reachable only with parent values that none of these populations attains -- listed in the evidence
             ck.discharged += 1
             ck.extra.setdefault("frontier_dependent_candidates", []).append({"rule": fname, "date": str(date), "kinds": kinds,
                                                                             "local_model": {a: str(m.eval(s.t, model_completion=True)) for a, s in enc.syms.items()}})
@@ -122,6 +127,45 @@ def check_date(ck, date, seen):
             ck.violation(["raises", fname, rep["raises"].split(":")[0]], what, {"kind": "row", "date": str(date), "node": n, "row": row})
         else:
             common.spurious("C08", what + f" -> {rep}")
+
+
+TEMPLATES = [(2, 0), (1, 1), (2, 1), (2, 3), (1, 4), (2, 5)]
+
+
+def template_cones(ck, dag, date, n, fname, kinds):
+    """returns True if a root-level population reproduces the error on the real API (violation reported)"""
+    import warnings
+    for na, nc in TEMPLATES:
+        try:
+            cone = rulebank.TemplateCone(dag, na, nc, date.year)
+            v, ctxn = cone.value(n)
+        except (R.Unsupported, ValueError, KeyError) as e:
+            ck.extra.setdefault("template_cone_not_encoded", {})[f"{fname}/{na}+{nc}"] = str(e)[:80]
+            continue
+        guards = [g for g, kk, w in (ctxn.errors if ctxn else [])]
+        if not guards:
+            continue
+        r, m = ck.solve(cone.valid() + cone.ancestors_ok(n) + [z3.Or(guards)], 120)
+        if r != "sat":
+            continue
+        df = cone.dataframe(m)
+        from gettsim import compute_taxes_and_transfers
+        P, F = gt.env(date)
+        with warnings.catch_warnings():
+            warnings.simplefilter("ignore")
+            try:
+                compute_taxes_and_transfers(df, P, F, targets=[n])
+                raised = None
+            except Exception as e:   # noqa: BLE001
+                raised = f"{type(e).__name__}: {e}"[:160]
+        what = f"{fname} ({n}) at {date}: computing it raises {raised} for a valid household of {na} adult(s) and {nc} child(ren)"
+        if raised:
+            ck.violation(["raises", fname, raised.split(":")[0]], what,
+                         {"kind": "household", "date": str(date), "node": n, "adults": na, "children": nc,
+                          "data": {c: [x.item() if hasattr(x, "item") else x for x in df[c].tolist()] for c in df.columns}})
+            return True
+        common.spurious("C08", what)
+    return False
 
 
 def compact(row):
@@ -158,7 +202,8 @@ def run(tier):
     seen = set()
     for d in dates:
         check_date(ck, d, seen)
-    ck.bounds = {"date_classes": len(dates), "distinct_rule_error_signatures": len(seen), "persons": "rule-local: 1 row of free parents; cone: single-person household from root inputs",
+    ck.bounds = {"date_classes": len(dates), "distinct_rule_error_signatures": len(seen),
+                 "persons": "rule-local: 1 row of free parents; cones from root inputs: single person, then household templates (adults, children) in " + str(TEMPLATES),
                  "window": "quick: 8 dates >= 2015; thorough: one representative per distinct environment >= 2015",
                  "outside": "error guards reachable only through multi-person structures are reported as frontier-dependent candidates (inconclusive)"}
     if st:
@@ -174,6 +219,20 @@ def run(tier):
 
 def replay(path):
     d = json.load(open(path))["replay"]
+    if d["kind"] == "household":
+        import pandas as pd
+        import warnings
+        from gettsim import compute_taxes_and_transfers
+        P, F = gt.env(datetime.date.fromisoformat(d["date"]))
+        with warnings.catch_warnings():
+            warnings.simplefilter("ignore")
+            try:
+                compute_taxes_and_transfers(pd.DataFrame(d["data"]), P, F, targets=[d["node"]])
+                print("no error")
+                return 0
+            except Exception as e:   # noqa: BLE001
+                print("raises", type(e).__name__, e)
+                return 1
     if d["kind"] == "row":
         rep = replay_row(datetime.date.fromisoformat(d["date"]), d["node"], d["row"])
         print(rep)
